@@ -181,6 +181,9 @@ def run(ctx, rep):
     from rules import C17, errprop
     C17.check_extend_sites(ctx, rep, "C05.e")
     errprop.run_iter(ctx, rep, "C05.f")
+    from rules import C08
+    rep.rule("C05.g", "check_pack cuts the pack into length field, header and blobs with exactly the recorded lengths (symbolic lengths)")
+    C08.framing_rule(ctx, rep, "C05.g", which=("check_pack",))
     # ---- C05.d -------------------------------------------------------------------------------------
     for fn, need in (("check_packs_list", {"NoPack", "PackSizeMismatchIndex"}), ("check_packs_list_hot", {"NoHotPack", "HotPackSizeMismatchIndex"})):
         F = prog.find1(rf"^rustic_core::commands::check::{fn}$")
